@@ -166,10 +166,15 @@ class IdentSim(object):
                 self.viol(i, "persistent-not-stable", "user=%s spq=%r nq=%r had %r got %r" % (
                     u, spq, nq, [b[4] for b in before], t))
                 raise Violation()
+            # Which one is returned when the caller has issued *several* persistent-format identifiers for
+            # the same (user, SP qualifier, name qualifier) through construct_nameid is not prescribed: the
+            # statement speaks of "the" persistent identifier.  With exactly one, the rule above is stability.
             lp = self.last_persistent.get((u, spq, nq))
-            if lp and lp in [b[4] for b in before] and t[4] != lp:
+            if len(before) == 1 and lp and lp == before[0][4] and t[4] != lp:
                 self.viol(i, "persistent-not-stable", "previous=%s now=%s" % (lp, t[4]))
                 raise Violation()
+            if len(before) > 1:
+                self.count("probe.persistent.several-candidates")
         else:
             self.count("probe.persistent.created")
             if t[2] != NAMEID_FORMAT_PERSISTENT or (t[1] or "") != (spq or "") or (t[0] or "") != (nq or ""):
